@@ -33,10 +33,11 @@ def load_contracts():
 
 
 def _task(args):
-    cname, cfg, timeout_ms, seed = args
+    cname, cfg, timeout_ms, seed = args[:4]
+    samples = args[4] if len(args) > 4 else 0
     t0 = time.time()
     try:
-        r = vc.verify(cname, cfg, timeout_ms=timeout_ms, seed=seed)
+        r = vc.verify(cname, cfg, timeout_ms=timeout_ms, seed=seed, samples=samples)
         d = r.to_json()
     except Exception as e:   # checker crash -> reported as such, never as a violation
         d = {"obligations": [], "paths": 0, "untranslatable": [], "errors": [f"checker crash: {type(e).__name__}: {e}\n" + traceback.format_exc()[-1500:]],
@@ -87,7 +88,7 @@ def main(argv=None):
     for n in names:
         c = vc.REGISTRY[n]
         for cfg in c.configs_for(args.tier):
-            tasks.append((n, cfg, timeout_ms, seed))
+            tasks.append((n, cfg, timeout_ms, seed, 3 if args.tier == "quick" else 40))
     if args.jobs > 1 and len(tasks) > 1:
         with mp.get_context("fork").Pool(min(args.jobs, len(tasks))) as pool:
             results = pool.map(_task, tasks, chunksize=1)
@@ -255,6 +256,10 @@ def main(argv=None):
             "backend": {"z3": __import__("z3").get_version_string(), "solver_seconds": solver_s},
             "stubs_used": stubs,
             "known_findings_printed": sorted(known_hits),
+            "cross_check": {"what": "the REAL functions run under CPython on inputs sampled from each contract's requires; every clause evaluated concretely "
+                                    "(validates interpreter + stubs; stands in for functions that are untranslatable on the current tree; never counted as proved)",
+                            "samples_run": sum(r.get("samples_run", 0) for r in results), "samples_failed": sum(r.get("samples_failed", 0) for r in results),
+                            "errors": [e for r in results for e in r.get("sample_errors", [])][:5]},
             "changed_functions_vs_baseline": changed if baseline else "no baseline",
             "faults": [list(f) for f in faults][:20],
             "samples": samples,
